@@ -4,7 +4,8 @@ import gen_http as G
 
 HARNESS = "rx_driver"
 LEAN_MODULES = ["ViaProofs.C05"]
-REQUIRED_THEOREMS = []
+LEMMA_MODULES = ['ViaProofs.Frag.Lines', 'ViaProofs.Frag.Headers', 'ViaProofs.Frag.Compose']
+REQUIRED_THEOREMS = ['Via.RR.receive_suffix', 'Via.RR.receive_progress', 'Via.RR.ok_init', 'Via.RR.ok_step', 'Via.RR.readLoop_done', 'Via.RS.receive_suffix', 'Via.RS.receive_progress', 'Via.RS.ok_init', 'Via.RS.ok_step', 'Via.RS.readLoop_done']
 LEVEL = "proof"
 RULE = ("byte streams: uniformly random octets, random octets over an HTTP-ish alphabet, valid messages with random corruption "
         "(byte flips, insertions, deletions, truncation, duplication of lines), every single cut of short corrupted streams; "
